@@ -102,6 +102,18 @@ def run(ctx):
 
     _ln = bound_names(rs, lambda t, n: t == "search_bytes.split(b'\\n')")
     ctx.check("reader-use", f"{SR}:SmartServerRepositoryRequest.recreate_search", len(disp) == 1 and norm(disp[0].args[1]) == f"{_ln[0]}[1:]" if len(_ln) == 1 else False, "the recipe body is everything after the tag line")
+    # ---- limited recipe: what is sent is the state of the local replay of the same walk ------------------------------
+    fl = repo.func(VS, "limited_search_result_from_parent_map")
+    wl_ = f"{VS}:limited_search_result_from_parent_map"
+    from ..astutil import bind_roles, canonicalise
+
+    fl = canonicalise(fl, bind_roles(fl, {"start_keys": ("assign", "~\\w+\\.get_state\\(\\)", 0), "exclude_keys": ("assign", "~\\w+\\.get_state\\(\\)", 1), "keys": ("assign", "~\\w+\\.get_state\\(\\)", 2)}, wl_))
+    rets3 = [norm(r.value) for r in walk_own(fl) if isinstance(r, ast.Return) and isinstance(r.value, ast.Tuple) and len(r.value.elts) == 3 and not all(isinstance(e, (ast.List, ast.Constant)) for e in r.value.elts)]
+    ctx.check("limited-recipe-is-replay-state", wl_, rets3 == ["(start_keys, exclude_keys, len(keys))"], "the limited recipe returns (start keys, stop keys, number of keys) of the locally replayed search", construct=str(rets3), message=f"limited_search_result_from_parent_map returns {rets3}: the stop keys / count are no longer the state of the local replay of the walk the server will repeat, so the server's count check fails (or passes for a different set)")
+    for v, allowed in (("exclude_keys", ()), ("keys", ()), ("start_keys", ("set(start_keys).difference(found_heads)", "start_keys.difference(found_heads)"))):
+        binds = [norm(s_.value) for s_ in walk_own(fl) if isinstance(s_, (ast.Assign, ast.AugAssign)) and any(isinstance(t, ast.Name) and t.id == v for t_ in (s_.targets if isinstance(s_, ast.Assign) else [s_.target]) for t in ast.walk(t_)) and not (isinstance(s_, ast.Assign) and isinstance(s_.value, ast.Call) and call_attr(s_.value) == "get_state")]
+        extra = [b for b in binds if b not in allowed]
+        ctx.check("limited-recipe-is-replay-state", wl_, not extra, f"`{v}` is the replayed search's own state" + (" minus heads found while walking" if allowed else ""), construct="; ".join(extra), message=f"`{v}` of the limited recipe is rewritten ({'; '.join(extra)}) after the local replay: the recipe no longer describes the walk that was replayed")
     # ---- count check --------------------------------------------------------------
     fn, g, where = fn_cfg(ctx, SR, "SmartServerRepositoryRequest.recreate_search_from_recipe", roles=RECIPE_ROLES)
     oks = [n.id for n in g.nodes if n.kind == "stmt" and isinstance(n.ast, ast.Return) and "search_result" in norm(n.ast.value)]
@@ -119,6 +131,7 @@ def run(ctx):
 
 
 MUTANTS = [
+    Mutant("limited recipe drops ghost stop keys", VS, "        start_keys = set(start_keys).difference(found_heads)\n    return start_keys, exclude_keys, len(keys)", "        start_keys = set(start_keys).difference(found_heads)\n    exclude_keys = set(exclude_keys).difference(missing_keys)\n    return start_keys, exclude_keys, len(keys)", expect="limited-recipe-is-replay-state"),
     Mutant("null: dropped from the walked keys before the count check", SR, "            (started_keys, excludes, included_keys) = search.get_state()\n", "            (started_keys, excludes, included_keys) = search.get_state()\n            included_keys = set(included_keys)\n            included_keys.discard(b\"null:\")\n", expect="count-check"),
     Mutant("start/stop lines swapped in the client serialiser", RM, "        return b\"\\n\".join((start_keys, stop_keys, count))\n\n    def _serialise_search_result", "        return b\"\\n\".join((stop_keys, start_keys, count))\n\n    def _serialise_search_result", expect="writer-fields"),
     Mutant("tag renamed on the client only", VS, "        parts = [b\"ancestry-of\"]", "        parts = [b\"ancestry\"]", expect="tags"),
